@@ -698,6 +698,19 @@ def run_impl(c):
                         rec["complaints"].append("with_insertions modified its arguments")
                     rec["res"] = {"poly": _obs_poly(r), "orig": [int(x) for x in om], "ins": [int(x) for x in im]}
                 elif k == "index_of":
+                    # explicit tolerances: the model's c_index_of_at is generic in atol, the theorems and the Coq-evaluated
+                    # correspondence tie the default form; the other forms are judged here against the definition itself
+                    # (first row within atol of the point in every coordinate, ValueError when there is none)
+                    qp = np.array(op["p"], dtype=np.float64)
+                    for A in (1e-8, 0.0, 0.75):
+                        hits = [i for i, row in enumerate(np.asarray(p.v)) if all(abs(float(x) - float(y)) <= A for x, y in zip(row, qp))]
+                        try:
+                            got = int(p.index_of_vertex(qp, atol=A))
+                        except ValueError:
+                            got = None
+                        if got != (hits[0] if hits else None):
+                            rec["complaints"].append("index_of_vertex(atol=%r) gave %r, the first vertex within atol is %r" % (
+                                A, got, hits[0] if hits else None))
                     rec["res"] = {"index": int(p.index_of_vertex(np.array(op["p"])))}
                 elif k == "aligned":
                     with np.errstate(all="ignore"):
